@@ -12,6 +12,8 @@ witness for each input, so Unsatisfiable / generation errors are violations (hea
 """
 from __future__ import annotations
 
+import re
+
 from hypothesis import strategies as st
 
 from vfw.core import Ctx, Sub, derive_seed, h
@@ -414,6 +416,13 @@ def check_operation(ctx: Ctx, inp) -> None:
             # the two statements of the document disagree there, and the declared one is what is judged above
             if not declared and not any(k.lower() == sec["name"].lower() for k in cont):
                 ctx.disagree(f"required-missing:security-{loc}", f"active security parameter {sec['name']!r} is missing from {loc}: {dict(cont)!r}", input=inp, case=summary)
+            elif not declared and sec["kind"] in ("basic", "bearer") and dialect != "2.0":
+                # an http scheme defines what the header looks like: `Basic <base64 of user:password>` / `Bearer <token>`
+                value = next(v for k, v in cont.items() if k.lower() == "authorization")
+                ok = isinstance(value, str) and re.fullmatch(r"Basic [A-Za-z0-9+/]*={0,2}" if sec["kind"] == "basic" else r"Bearer .*", value) is not None
+                ctx.classes[f"security:http-{sec['kind']}:{sec.get('spelling', 'lower')}"] += 1
+                if not ok:
+                    ctx.disagree(f"security-parameter-does-not-follow-its-scheme:{sec['kind']}", f"Authorization is {value!r} for an http {sec['kind']} scheme (spelled {sec.get('spelling', 'lower')})", input=inp, case=summary)
         declared: list = []
         undeclared: list = []
         for part in (case.path_parameters, case.query, dict(case.headers or {}), case.cookies):
